@@ -216,6 +216,20 @@ V("C03", "C03.R3", "c03-ssize-t-clean-after-include", "shroud/wrapp.py",
 V("C03", "C03.R3", "c03-ssize-t-clean-same-string", "shroud/wrapp.py",
   '        output.append("#define PY_SSIZE_T_CLEAN")\n        output.append("#include <Python.h>")',
   '        output.append("#define PY_SSIZE_T_CLEAN\\n#include <Python.h>")', "silent", "")
+V("C06", "C06.R11", "c06-created-object-built-with-O", "shroud/wrapp.py",
+  '            build_format = "N"\n            vargs = fmt.py_var', '            build_format = "O"\n            vargs = fmt.py_var',
+  "fire", "intent_out:object_created:build_format")
+V("C06", "C06.R11", "c06-borrowed-object-built-with-N", "shroud/wrapp.py",
+  'ttt = ttt._replace(format="O", blk0=util.Scope(', 'ttt = ttt._replace(blk0=util.Scope(', "fire", "borrowed-object:build_format")
+V("C18", "C18.R6", "c18-method-arguments-from-slot-1", "shroud/wrapl.py",
+  "        if cls and not is_ctor:\n            LUA_index = 2\n        else:\n            LUA_index = 1",
+  "        LUA_index = 1", "fire", "first-argument-slot")
+V("C18", "C18.R6", "c18-method-count-includes-object", "shroud/wrapl.py",
+  '"int SH_nargs = lua_gettop({LUA_state_var}) - 1;", fmt', '"int SH_nargs = lua_gettop({LUA_state_var});", fmt', "fire", "count-excludes-object")
+V("C18", "C18.R6", "c18-type-tests-not-shifted", "shroud/wrapl.py",
+  "fmt.iarg = iarg + this_offset", "fmt.iarg = iarg", "fire", "type-test-slot")
+V("C18", "C18.R6", "c18-ctor-shifted-too", "shroud/wrapl.py",
+  "            if cls and not is_ctor:\n                this_offset = 1", "            if cls:\n                this_offset = 1", "fire", "wrap_function")
 V("C05", "C05.R16", "c05-ctor-default-returns-nullptr", "shroud/wrapp.py",
   '                "return {PY_error_return};\\n"\n#                "goto fail;\\n"',
   '                "return {nullptr};\\n"\n#                "goto fail;\\n"', "fire", "wrap_function:return {nullptr}")
